@@ -802,7 +802,7 @@ class SshHostCertificateV00Base(ParsableBase, SshCertificateBase):  # pylint: di
         parser.parse_parsable('constraints', SshCertConstraintVector)
         parser.parse_bytes('nonce', 4)
         parser.parse_bytes('reserved', 4)
-        parser.parse_parsable('signature_key', SshHostPublicKeyVariant, 4)
+        parser.parse_parsable('signature_key', SshCertSignatureKeyVariant, 4)
         parser.parse_parsable('signature', SshCertSignature, 4)
 
     def _compose_host_cert_params(self, composer):
@@ -973,7 +973,7 @@ class SshHostCertificateV01Base(ParsableBase, SshCertificateBase):  # pylint: di
         parser.parse_parsable('critical_options', SshCertCriticalOptionVector)
         parser.parse_parsable('extensions', SshCertExtensionVector)
         parser.parse_bytes('reserved', 4)
-        parser.parse_parsable('signature_key', SshHostPublicKeyVariant, 4)
+        parser.parse_parsable('signature_key', SshCertSignatureKeyVariant, 4)
         parser.parse_parsable('signature', SshCertSignature, 4)
 
     def _compose_host_cert_params(self, composer):
@@ -1199,6 +1199,27 @@ class SshX509CertificateChain(ParsableBase, SshHostKeyBase):
             ('key_type', self.host_key_algorithm.value.key_type.value),
             ('certificate_chain', [self.public_key] + self.issuer_certificates),
         ])
+
+
+class SshCertSignatureKeyVariant(VariantParsable):
+    """Key of the certificate authority, which is always a plain key as certificates cannot sign certificates"""
+
+    _VARIANTS = collections.OrderedDict(itertools.chain.from_iterable([
+        [
+            (host_key_algorithm, (ssh_key_class, ))
+            for host_key_algorithm in ssh_key_class.get_host_key_algorithms()
+        ]
+        for ssh_key_class in [
+            SshHostKeyDSS,
+            SshHostKeyECDSA,
+            SshHostKeyEDDSA,
+            SshHostKeyRSA,
+        ]
+    ]))
+
+    @classmethod
+    def _get_variants(cls):
+        return cls._VARIANTS
 
 
 class SshHostPublicKeyVariant(VariantParsable):
